@@ -97,7 +97,7 @@ func arithObserve(content []byte, base int) J {
 	e := J{"text": intsOf(content), "ok": false, "val": 0, "err": "", "parseerr": false}
 	if m := safely(func() {
 		f, fs := fileAt(content, base)
-		ctx := parsley.NewContext(fs, text.NewReader(f))
+		ctx := parsley.NewContext(fs, readerFor(f))
 		v, err := parsley.Evaluate(ctx, arithP)
 		if err != nil {
 			e["err"] = err.Error()
@@ -253,7 +253,7 @@ func arithMain(mode string, a args) {
 				die("bad case: %v", err)
 			}
 			cases++
-			o := arithObserve(bytesOf(c.Text), 1)
+			o := arithObserve(bytesOf(c.Text), 1+(cases%3)*(cases%7)) // the placement of the file is irrelevant to the value and to line:column
 			bad := o["panic"] != nil
 			switch c.K {
 			case "v":
